@@ -265,7 +265,7 @@ impl RandState<'_> {
                 )
             }
             TypeInner::Service(_) => IDLValue::Service(crate::Principal::arbitrary(u)?),
-            _ => unimplemented!(),
+            _ => return Err(Error::msg(format!("cannot generate a value of type {ty}"))),
         });
         self.0.pop_state(old_config, StateElem::Type(ty));
         res
